@@ -544,8 +544,12 @@ def langStmts : Option Tag → List Stmt → List (Tag × Tag × Bool)
   | cur, .language l ex :: rest => (cur.getD "DFLT", l, ex) :: langStmts cur rest
   | cur, _ :: rest => langStmts cur rest
 
+def langsysStmt? : Top → Option (Tag × Tag)
+  | .langsys s l => some (s, l)
+  | _ => none
+
 def langsysOf (tops : List Top) : List (Tag × Tag) :=
-  let ls := tops.filterMap fun | .langsys s l => some (s, l) | _ => none
+  let ls := tops.filterMap langsysStmt?
   if ls.isEmpty then [("DFLT", "dflt")] else ls
 
 /-- Is something at position `reg` of a feature block registered for `(script, lang)`?
@@ -849,13 +853,19 @@ def activeLookups (t : Table) (script lang : Tag) (feats : List Tag) : List Nat 
 
 end OT
 
+/-- apply the lookup with index `i` (an index outside the lookup list is skipped) -/
+def OT.applyAtIdx {β L : Type} (lookups : List L) (apply : L → β → β) (s : β) (i : Nat) : β :=
+  match lookups[i]? with
+  | some l => apply l s
+  | none => s
+
 /-- **OpenType application.**  The lookups of the enabled features of the selected language system,
     in lookup-list order: GSUB, then GPOS. -/
 def shape (t : OT.Tables) (script lang : Tag) (feats : List Tag) (alt : Nat) (s : List Glyph) : List PGlyph :=
   let glyphs := (OT.activeLookups t.gsub script lang feats).foldl
-    (fun s i => match t.gsub.lookups[i]? with | some l => OT.applyGsub t alt l s | none => s) s
+    (OT.applyAtIdx t.gsub.lookups (OT.applyGsub t alt)) s
   (OT.activeLookups t.gpos script lang feats).foldl
-    (fun s i => match t.gpos.lookups[i]? with | some l => OT.applyGpos t l s | none => s) (glyphs.map (·, Value.zero))
+    (OT.applyAtIdx t.gpos.lookups (OT.applyGpos t)) (glyphs.map (·, Value.zero))
 
 
 /-! ## 5. What fea-rs builds -/
@@ -879,6 +889,16 @@ def mapInsertIfAbsent {β : Type} (k : Glyph) (v : β) (m : List (Glyph × β)) 
 /-- `entry(k).or_default()` then modify -/
 def mapUpdate {β : Type} (k : Glyph) (dflt : β) (f : β → β) (m : List (Glyph × β)) : List (Glyph × β) :=
   mapInsert k (f ((m.lookup k).getD dflt)) m
+
+/-- `BTreeMap` with a general key: `entry(k).or_insert(init)` then modify.  An existing key is
+    updated in place, a new key goes before the first larger one. -/
+def insertBefore {κ β : Type} (lt : κ → κ → Bool) (k : κ) (v : β) : List (κ × β) → List (κ × β)
+  | [] => [(k, v)]
+  | (k', v') :: rest => if lt k k' then (k, v) :: (k', v') :: rest else (k', v') :: insertBefore lt k v rest
+
+def upsert {κ β : Type} [BEq κ] (lt : κ → κ → Bool) (k : κ) (init : β) (f : β → β) (m : List (κ × β)) : List (κ × β) :=
+  if m.any (·.1 == k) then m.map fun p => if p.1 == k then (p.1, f p.2) else p
+  else insertBefore lt k (f init) m
 
 inductive LookupId where
   | gpos (i : Nat)
@@ -1447,13 +1467,9 @@ def tagLt (a b : Tag) : Bool := padTag a < padTag b
 def keyLt (a b : Tag × Tag × Tag) : Bool :=
   tagLt a.1 b.1 || (a.1 == b.1 && (tagLt a.2.1 b.2.1 || (a.2.1 == b.2.1 && tagLt a.2.2 b.2.2)))
 
-def featInsert (k : Tag × Tag × Tag) (ls : List LookupId) :
-    List ((Tag × Tag × Tag) × List LookupId) → List ((Tag × Tag × Tag) × List LookupId)
-  | [] => [(k, ls)]
-  | (k', ls') :: rest =>
-    if keyLt k k' then (k, ls) :: (k', ls') :: rest
-    else if k == k' then (k', ls' ++ ls) :: rest
-    else (k', ls') :: featInsert k ls rest
+def featInsert (k : Tag × Tag × Tag) (ls : List LookupId)
+    (m : List ((Tag × Tag × Tag) × List LookupId)) : List ((Tag × Tag × Tag) × List LookupId) :=
+  upsert keyLt k [] (· ++ ls) m
 
 /-- `add_feature`: `start_feature`, the statements, `end_feature` -/
 def St.feature (fx : Fixes) (s : St) (tag : Tag) (body : List Stmt) : St :=
@@ -1483,19 +1499,8 @@ structure PSB where
   features : List (Tag × List Nat) := []
   scripts : List (Tag × List (Tag × List Nat)) := []
 
-def scriptInsert (script lang : Tag) (fi : Nat) : List (Tag × List (Tag × List Nat)) → List (Tag × List (Tag × List Nat))
-  | [] => [(script, [(lang, [fi])])]
-  | (s, langs) :: rest =>
-    if tagLt script s then (script, [(lang, [fi])]) :: (s, langs) :: rest
-    else if script == s then
-      let rec ins : List (Tag × List Nat) → List (Tag × List Nat)
-        | [] => [(lang, [fi])]
-        | (l, fs) :: more =>
-          if tagLt lang l then (lang, [fi]) :: (l, fs) :: more
-          else if lang == l then (l, fs ++ [fi]) :: more
-          else (l, fs) :: ins more
-      (s, ins langs) :: rest
-    else (s, langs) :: scriptInsert script lang fi rest
+def scriptInsert (script lang : Tag) (fi : Nat) (m : List (Tag × List (Tag × List Nat))) : List (Tag × List (Tag × List Nat)) :=
+  upsert tagLt script [] (upsert tagLt lang [] (· ++ [fi])) m
 
 def PSB.add (b : PSB) (key : Tag × Tag × Tag) (ls : List Nat) : PSB :=
   let fk := (key.1, ls)
